@@ -125,3 +125,32 @@ Proof.
   - apply config_keys_ok.
   - intros _. eapply table_marks_explicit; eauto.
 Qed.
+
+(* ---- main() reads configurable options only through the Config object ---- *)
+Require Coq.Strings.String.
+Module Lit.
+  Import Coq.Strings.String.
+  Local Open Scope string_scope.
+  Definition none := list_byte_of_string "<none>".
+  Definition read_bytes := list_byte_of_string "read_bytes".
+  Definition write_bytes := list_byte_of_string "write_bytes".
+  Definition cfg_in := list_byte_of_string "config.input_format".
+  Definition cfg_out := list_byte_of_string "config.output_format".
+  Definition raw := list_byte_of_string "'raw'".
+End Lit.
+
+(* no `args.<configurable option>` (nor getattr(args, "<option>"), vars(args)["<option>"]) anywhere in bits/__main__.py *)
+Theorem no_direct_args_reads : G.args_config_reads = [].
+Proof. vm_compute. reflexivity. Qed.
+
+(* every read_bytes / write_bytes call of main() sits in a subcommand branch and takes its format from
+   config.input_format / config.output_format, or is the constant "raw" *)
+Definition io_call_ok (c : bytes * bytes * bytes * bytes) : bool :=
+  let '(sub, _, f, e) := c in
+  negb (bytes_eqb sub Lit.none) &&
+  (if bytes_eqb f Lit.read_bytes
+   then bytes_eqb e Lit.cfg_in || bytes_eqb e Lit.raw
+   else bytes_eqb f Lit.write_bytes && (bytes_eqb e Lit.cfg_out || bytes_eqb e Lit.raw)).
+
+Theorem io_calls_use_config : forallb io_call_ok G.io_calls = true.
+Proof. vm_compute. reflexivity. Qed.
